@@ -101,41 +101,70 @@ def coq_make(targets=None, timeout=1500):
     return rc == 0, (o + e)[-6000:]
 
 
-def coq_property(pid, extra_files=()):
-    """Re-run coqc on Properties_<pid>.v (always, so that Print Assumptions output is
-    captured from *this* run).  Returns dict(ok, theorems, assumptions, log, cmd)."""
-    deps_ok, log = coq_make(["theories/Properties_%s.vo" % pid])
-    res = {"ok": False, "theorems": [], "assumptions": {}, "log": log, "cmd": ""}
-    if not deps_ok:
-        res["log"] = "make failed:\n" + log
-        # find which file failed
-        m = re.findall(r'File "\./theories/([A-Za-z0-9_]+\.v)", line (\d+)', log)
-        res["failed_at"] = ["%s:%s" % x for x in m][:3]
-        return res
-    f = "theories/Properties_%s.v" % pid
-    cmd = "coqc -Q theories LibCSD %s" % f
-    res["cmd"] = "cd /verif/coq && make -j16 theories/Properties_%s.vo && %s" % (pid, cmd)
-    rc, o, e = sh("timeout 600 " + cmd, cwd=COQ, timeout=630)
-    res["log"] = (o + e)[-8000:]
+def property_files(pid):
+    """Every Properties_*.v that exports a theorem named <pid>_... (the property's own file and
+    the per-component files)."""
+    d = os.path.join(COQ, "theories")
+    out = []
+    for f in sorted(os.listdir(d)):
+        if f.startswith("Properties_") and f.endswith(".v"):
+            src = strip_coq_comments(open(os.path.join(d, f)).read())
+            if re.search(r"\b(?:Theorem|Lemma|Corollary|Example)\s+%s_" % pid, src):
+                out.append(f)
+    return out
+
+
+def _coqc_property_file(args):
+    f, pid = args
+    cmd = "coqc -Q theories LibCSD theories/%s" % f
+    rc, o, e = sh("timeout 900 " + cmd, cwd=COQ, timeout=930)
+    res = {"file": f, "ok": rc == 0, "log": (o + e)[-6000:], "theorems": [], "assumptions": {}, "cmd": cmd}
     if rc != 0:
         m = re.findall(r'File "\./theories/([A-Za-z0-9_]+\.v)", line (\d+)', o + e)
         res["failed_at"] = ["%s:%s" % x for x in m][:3]
         return res
-    src = strip_coq_comments(open(os.path.join(COQ, f)).read())
+    src = strip_coq_comments(open(os.path.join(COQ, "theories", f)).read())
     thms = re.findall(r"\b(?:Theorem|Lemma|Corollary|Example)\s+([A-Za-z0-9_']+)", src)
-    res["theorems"] = thms
-    # parse Print Assumptions output blocks in order
+    own = f == "Properties_%s.v" % pid
+    res["theorems"] = [t for t in thms if t.startswith(pid + "_") or own]
     pa = re.findall(r"Print Assumptions\s+([A-Za-z0-9_'.]+)\s*\.", src)
     blocks = re.split(r"(?m)^(?=Closed under the global context|Axioms:)", o)
     blocks = [b for b in blocks if b.startswith("Closed under") or b.startswith("Axioms:")]
+    res["pa_count"], res["pa_blocks"] = len(pa), len(blocks)
     for name, b in zip(pa, blocks):
-        if b.startswith("Closed under"):
-            res["assumptions"][name] = "Closed under the global context"
-        else:
-            res["assumptions"][name] = " ".join(b.split())[:600]
-    res["ok"] = True
-    res["pa_count"] = len(pa)
-    res["pa_blocks"] = len(blocks)
+        if name.startswith(pid + "_") or own:
+            res["assumptions"][name] = "Closed under the global context" if b.startswith("Closed under") \
+                else " ".join(b.split())[:600]
+    return res
+
+
+def coq_property(pid, extra_files=()):
+    """Re-run coqc on every Properties file of the property (always, so that Print Assumptions
+    output is captured from *this* run).  Returns dict(ok, theorems, assumptions, log, cmd)."""
+    files = property_files(pid)
+    res = {"ok": False, "theorems": [], "assumptions": {}, "log": "", "cmd": "", "files": files}
+    if not files:
+        res["log"] = "no Properties file exports a theorem of %s" % pid
+        return res
+    deps_ok, log = coq_make(["theories/%s" % f.replace(".v", ".vo") for f in files])
+    if not deps_ok:
+        res["log"] = "make failed:\n" + log
+        m = re.findall(r'File "\./theories/([A-Za-z0-9_]+\.v)", line (\d+)', log)
+        res["failed_at"] = ["%s:%s" % x for x in m][:3]
+        return res
+    from concurrent.futures import ThreadPoolExecutor
+    with ThreadPoolExecutor(max_workers=8) as ex:
+        parts = list(ex.map(_coqc_property_file, [(f, pid) for f in files]))
+    res["cmd"] = "cd /verif/coq && make -j16 && " + " && ".join(p["cmd"] for p in parts)
+    res["ok"] = all(p["ok"] for p in parts)
+    res["pa_count"] = sum(p.get("pa_count", 0) for p in parts)
+    res["pa_blocks"] = sum(p.get("pa_blocks", 0) for p in parts)
+    for p in parts:
+        res["theorems"] += p["theorems"]
+        res["assumptions"].update(p["assumptions"])
+        if not p["ok"]:
+            res["log"] += p["log"]
+            res.setdefault("failed_at", []).extend(p.get("failed_at", []))
     return res
 
 
@@ -191,7 +220,7 @@ def build_oracle(force=False, extra_dir=None):
                                               os.path.join(OCAML, "cmds.list")]
     for root, _, files in os.walk(os.path.join(COQ, "theories")):
         for f in files:
-            if f.endswith("Defs.v") or f in ("Base.v", "Bytes.v", "Spec.v"):
+            if f.endswith(".v") and not f.endswith("Proofs.v") and not f.startswith("Properties_"):
                 srcs.append(os.path.join(root, f))
     if not force and os.path.exists(exe) and all(os.path.getmtime(exe) >= os.path.getmtime(s) for s in srcs):
         return True, "cached"
@@ -373,7 +402,7 @@ class Run:
         self.checker_cmd = ""
         self.level = "proof"
         self.rule = ""
-        self.known = [k for k in load_known() if k.get("property") == pid and not k.get("fixed")]
+        self.known = [k for k in load_known() if (k.get("property") == pid or pid in k.get("properties", []))]
 
     def oblige(self, name, ok, detail=""):
         self.obligations.append((name, bool(ok), detail))
@@ -401,9 +430,11 @@ class Run:
         checker on the concrete failing input; a known finding suppresses the report only
         if its (kind, operation, input_class) all match."""
         for k in self.known:
+            kinds = k.get("kinds") or ([k["kind"]] if k.get("kind") else [])
+            ops = k.get("operations") or ([k["operation"]] if k.get("operation") else [])
             if k.get("input_class") in classes and \
-                    (not k.get("kind") or k.get("kind") == payload.get("kind")) and \
-                    (not k.get("operation") or k.get("operation") == payload.get("operation")):
+                    (not kinds or payload.get("kind") in kinds) and \
+                    (not ops or payload.get("operation") in ops):
                 self.known_hits.append((k["key"], k.get("description", what)))
                 return
         payload = dict(payload)
@@ -466,7 +497,7 @@ def proof_side(run, pid):
     run.checker_cmd = r.get("cmd", "")
     ok = r["ok"]
     if not ok:
-        run.oblige("coqc Properties_%s.v" % pid, False, "failed at %s\n%s" % (r.get("failed_at"), r["log"][-1500:]))
+        run.oblige("coqc %s" % " ".join(r.get("files", [])), False, "failed at %s\n%s" % (r.get("failed_at"), r["log"][-1500:]))
         run.extra["coq_failure"] = {"failed_at": r.get("failed_at"), "log_tail": r["log"][-3000:]}
         return False, r
     for t in r["theorems"]:
